@@ -395,6 +395,12 @@ func premiseNilOnError(c *Ctx) {
 	RunOps(c, OpFilter{Keep: func(rule, construct string) bool { return rule == "A4.pre" }, Only: func(f engine.Finding) bool {
 		return f.Rule == "A4.pre" && (f.What == "error-with-result" || f.What == "typed-nil-result")
 	}})
+	// … and the constructors of package tensor (Full, Zeros, …, TensorOf, Concat) likewise
+	e := engine.NewOpEngine(c.P, c.A)
+	e.RunTensorEntryChecks(2)
+	fileOps(c, e, OpFilter{Keep: func(rule, construct string) bool { return rule == "A4.pre" }, Only: func(f engine.Finding) bool {
+		return f.Rule == "A4.pre" && (f.What == "error-with-result" || f.What == "typed-nil-result")
+	}})
 }
 
 // phaseBudget limits the interpretation that follows to half of what is left of the check's time budget; the
